@@ -35,6 +35,8 @@ PROFILE = scenario.profile(
     target_kinds=("quad", "quad", "l1", "maxn", "plateau", "plateau", "rosen", "linear", "const"),
     # steep targets (values up to ~1e6-1e7) with a small reported SD make the GP covariance numerically singular
     scales=(1.0, 1.0, 1e-2, 10.0, 1e2, 1e4, 1e5, 1e6, 1e6),
+    # population sizes of the evolution strategies (mu = n_search / n_search_iter: odd, tiny, not a multiple of anything)
+    extra_opts=(("n_search_iter", (3, 5, 1, 7), 0.08), ("n_search", (1000, 333, 2**10 + 1, 64), 0.06)),
 )
 PROFILE_T = dict(PROFILE, maxD=6, extra_budget=(0, 200))
 N = {"quick": 400, "thorough": 6000}
